@@ -97,7 +97,7 @@ def main(res, tier, rng, replay):
     nb = D.NetBatch(res, 'net-sim-permuted')
     for i in range(n_designs):
         r = rng.fork(('d', i))
-        plan = G.random_plan(r, r.randint(2, 24), seq_ratio=(1, 2), wmax=r.choice([2, 4, 8, 16]), n_domains=r.choice([0, 1, 2, 3]),
+        plan = G.reg_chain_plan(r) if i % 3 == 2 else G.random_plan(r, r.randint(2, 24), seq_ratio=(1, 2), wmax=r.choice([2, 4, 8, 16]), n_domains=r.choice([0, 1, 2, 3]),
                              kinds=['And2', 'Or2', 'Not', 'Buf', 'Mux2', 'Sub', 'AddCarryIn', 'Constant', 'Bit', 'Reg', 'Sequence',
                                     'SynchronousMemory', 'AutoReset', 'ShiftRightConstant'])
         nseq = sum(1 for nd in plan['nodes'] if nd['kind'] in G.SEQ)
@@ -114,10 +114,14 @@ def main(res, tier, rng, replay):
             tA, pA, simA = run_variant(plan, order, ops_spec)
             tB, pB, simB = run_variant(plan, order, ops_spec, perm_rng=r.fork('perm'))
             tC, pC, simC = run_variant(plan, order, ops_spec, split=True)
+        except Exception as e:
+            res.hist('simulation_errors', f'{type(e).__name__}:{str(e)[:40]}')
+            continue
+        try:
             # model comparison on a permuted visiting order (the model takes the drivers list from the real simulator)
             run_variant(plan, order, ops_spec, perm_rng=r.fork('perm2'), nb=nb, label=i)
         except D.NotDumpable:
-            continue
+            res.hist('not_dumpable', 'design')   # a leaf class the translator could not translate: the oracle below still runs
         res.count(('design', i, str(summary)), nontrivial=nseq >= 2, hist={'seq_leaves': min(nseq, 10)})
         if i < 2:
             res.sample(summary)
